@@ -260,6 +260,57 @@ def path_git(ctx, arg):
         ctx.tag('same_output')
 
 
+def path_root(ctx, arg):
+    """repository discovery (`-C <dir>` -> GitVcs::new_with_limit -> find_vcs_root_with_limit, is_available) twice under two
+    process environments whose current directories differ (or cannot be read: removed directory): for an ABSOLUTE
+    start path the outcome must not depend on the current directory; a relative start path may (the directory is then
+    part of the input) but must not panic.  File system: a fixed tree with `.git` at `root` (input shared by both runs)."""
+    import models_path as MP
+    I, w = ctx.I, ctx.w
+    start, depth, root = arg
+    MP.FS[0] = {'/', '/r', '/r/s', '/r/s/t', '/x', '/x/y'} | ({root + '/.git'} if root else set())
+    md = none() if depth is None else some(depth)
+
+    def run():
+        r = I.call('GitVcs::new_with_limit', [MP.PR(start), md])
+        if r.variant != 0:
+            return ('err',)
+        g = r.fields[0]
+        avail = I.call("<GitVcs as Vcs>::is_available", [ValPtr(g), MP.PR(start)])
+        return ('ok', MP.text(peel(g).fields[0]), bool(avail) if isinstance(avail, bool) else avail)
+    import models_misc as MM
+    MM.PROCESS_OUTPUT[0] = dict(success=True, stdout=[ord(c) for c in 'git version 2.39.5\n'], stderr=[])     # `git --version` of is_available
+    try:
+        a, b = two_envs(run, I)
+    except Panic as e:
+        MM.PROCESS_OUTPUT[0] = None
+        ctx.violation(clause='panic', what='find_vcs_root', start=start, depth=depth, root=root, detail=str(e), vkey='panic|root')
+        return
+    MM.PROCESS_OUTPUT[0] = None
+    ctx.tag('two_runs')
+    ctx.tag('found' if a[0] == 'ok' else 'not_found')
+    if start.startswith('/'):
+        if a != b:
+            m = w.get_model()
+            env = env_of(w, m)
+            cw = lambda k: MP.CWD_MENU[env['cwd@%d' % k]] if ('cwd@%d' % k) in env else 'not read'
+            ctx.violation(clause='env_dependent', what='vcs_root', start=start, depth=depth, root=root, cwd=[cw(1), cw(2)], results=[list(a), list(b)], env={k: v for k, v in env.items()},
+                          detail='repository discovery from the absolute path %s gives %s with current directory %s and %s with %s' % (start, a, cw(1), b, cw(2)), vkey='env|root')
+        else:
+            ctx.tag('same_output')
+    else:
+        ctx.tag('relative_start')
+
+
+def root_args(tier):
+    out = []
+    for root in ('/r', '/r/s', None):
+        for start in ('/r/s/t', '/r', '/x/y', '/', '/r/s/..', 's', '..', '.'):
+            for depth in ((None, 0, 1, 3) if tier != 'quick' or start in ('/r/s/t', '..') else (None, 1)):
+                out.append((start, depth, root))
+    return out
+
+
 def git_args(tier):
     import c02
     q = tier == 'quick'
